@@ -182,8 +182,10 @@ struct Run{
     double t_before=live->Get_t();
     c.log.clear(); c.rhs_evals=0; c.napply=0; c.nseen=0; c.distinct_inputs=0; c.rejections_fired=0; c.failures_fired=0;
     c.reject_budget=sc.reject; c.fail_budget=sc.fail; g_last_apply_y=0;
+    c.toggle_at=(numerics&&o.has("pre_toggle"))?(int)std::max(1LL,std::min(12LL,o["pre_toggle"]["at"].as_int(1))):0; c.toggle_which=(int)(o.has("pre_toggle")?o["pre_toggle"]["which"].as_int(0):0); c.pre_count=0; c.toggled=false;
     int rc=lib_call([&]{ live->Evolve(dt); });
-    c.reject_budget=0; c.fail_budget=0;
+    c.reject_budget=0; c.fail_budget=0; c.toggle_at=0;
+    bool toggled=c.toggled; c.toggled=false; if(toggled){ any_override=-1; c.ctr->add("probe_switch_toggled_inside_prederive"); }
     { StepCfg used=sc; sc=saved; sc.abs=used.abs; sc.rel=used.rel; }      // tolerances actually used enter the closed-form tolerance; the plan's settings stay
     applies_total+=c.napply; sim_time+=dt;
     c.ctr->add("rhs_evaluations",c.rhs_evals); c.ctr->add("stepper_applies",c.napply);
@@ -205,6 +207,11 @@ struct Run{
     if(rc!=CALL_OK && !sc.adaptive && sc.abs<1e-6 && g_what.find("(failure)")!=std::string::npos){
       // fixed stepping whose step misses the controller's tight bounds: GSL reports failure and Evolve must throw (it did); resynchronise
       c.ctr->add("probe_fixed_step_rejected_by_controller");
+      Json cfg=Json::object(); cfg["nx"]=(int)nx; cfg["nsun"]=(int)nsun; cfg["nrhos"]=(int)nrhos; cfg["nscalars"]=(int)nsc; cfg["t0"]=t_ini; cfg["seed"]=(long long)(opiseed()); cfg["grid"]="lin"; cfg["xa"]=1.0; cfg["xb"]=2.0;
+      Json ro=Json::object(); ro["cfg"]=cfg; op_reini(ro); return;
+    }
+    if(rc!=CALL_OK && toggled && g_what.find("(failure)")!=std::string::npos){
+      // a right-hand side that changes discontinuously in mid-step may make a fixed step miss the controller's bounds: GSL's business; resynchronise
       Json cfg=Json::object(); cfg["nx"]=(int)nx; cfg["nsun"]=(int)nsun; cfg["nrhos"]=(int)nrhos; cfg["nscalars"]=(int)nsc; cfg["t0"]=t_ini; cfg["seed"]=(long long)(opiseed()); cfg["grid"]="lin"; cfg["xa"]=1.0; cfg["xb"]=2.0;
       Json ro=Json::object(); ro["cfg"]=cfg; op_reini(ro); return;
     }
@@ -238,7 +245,7 @@ struct Run{
       for(unsigned ir=0;ir<nrhos;ir++) ref[ix*nrhos+ir]=prob.advance(ix,ir,ref[ix*nrhos+ir],t_before,t_before+dt,c.sw.coh,c.sw.noncoh,c.sw.other);
       for(unsigned is=0;is<nsc;is++) refs[ix*nsc+is]=prob.advance_scalar(ix,is,refs[ix*nsc+is],t_before,t_before+dt,c.sw.gs,c.sw.os);
     }
-    if(sc.is_sim()||dt==0){
+    if(sc.is_sim()||dt==0||toggled){
       // integration accuracy of the seeded tableaux is not judged; continue from the library's own state
       for(unsigned ix=0;ix<nx;ix++){ for(unsigned ir=0;ir<nrhos;ir++) ref[ix*nrhos+ir]=from_components(nsun,live->rho_ptr(ix,ir)); for(unsigned is=0;is<nsc;is++) refs[ix*nsc+is]=live->scal_ptr(ix)[is]; }
       acc_tol=0;
@@ -541,6 +548,30 @@ struct Run{
     c.ctr->add("expect_x_checked");
   }
 
+  // PreDerive outside the stepper (Evolve without numerics, or the evolve loop's own first evaluation): in a C05 plan the callback asks the object for
+  // an expectation value, which must be the one at the time it has just been told
+  static void pre_hook_tramp(void* run,SimSolver* self,double t){ ((Run*)run)->pre_hook(self,t); }
+  void pre_hook(SimSolver* self,double t){
+    if(prop!="C05" || self!=live || !c.out->ok || c.rhs_evals>0 || c.napply>0) return;
+    bool numerics=(any_override<0)?c.sw.any():(any_override==1); if(numerics) return;      // the stored state is the current state only when nothing integrates
+    int sc=verif::alloc_in_scope(); verif::alloc_scope(0);                                   // the callback's own bookkeeping is the user's, not the library's
+    {
+      std::vector<double> oc(nsun*nsun); for(size_t k=0;k<oc.size();k++) oc[k]=0.1+0.07*k;
+      Mat O=from_components(nsun,&oc[0]); Mat rho=from_components(nsun,self->rho_ptr(0,0));
+      double x=grid.size()>0?grid[0]:0.0,mp=0; double want=dense_expect(rho,O,x,0,t-t_ini,&mp);
+      double got=0; bool threw=false;
+      verif::alloc_scope(sc);
+      try{ squids::SU_vector op(oc); got=self->GetExpectationValue(op,0,0); }catch(std::exception&){ threw=true; }
+      verif::alloc_scope(0);
+      if(!threw){
+        double tol=1e-12*(1+mp)*nsun*nsun*(rho.maxabs()*O.maxabs()+1e-300);
+        c.ctr->add("expect_inside_prederive_checked");
+        if(!(std::fabs(got-want)<=tol)){ char b[260]; snprintf(b,sizeof b,"GetExpectationValue asked from inside PreDerive(t=%.6g) during an Evolve without numerics returns %.15g, Tr(rho_S O) at the announced time is %.15g (tolerance %.3g)",t,got,want,tol); c.violation("C05","expect:mismatch","inside-prederive",b); }
+      }
+    }
+    verif::alloc_scope(sc);
+  }
+
   void op_second_solver(const Json& o){
     // another solver of another dimension on the same simulated thread (the interpolation scratch is thread local and sized by its first user)
     begin("second_solver",prop=="C05"?"C05":"C15");
@@ -749,7 +780,9 @@ struct SolverEngine: Engine{
     auto dtgen=[&]{ return r.chance(0.1)?0.0:(r.chance(0.7)?r.uniform(0.05,0.8):r.uniform(0.8,1.6)); };
     if(prop=="C04"){
       int nev=r.range(1,3);
-      for(int i=0;i<nev;i++){ double dt=dtgen(); if(i==0||r.chance(0.4)) ops.push(gen_stepper(r,dt,L)); else if(r.chance(0.3)) ops.push(gen_tweak(r)); evolve(dt); if(r.chance(0.25)) ops.push(gen_expect(r,false)); }
+      for(int i=0;i<nev;i++){ double dt=dtgen(); if(i==0||r.chance(0.4)) ops.push(gen_stepper(r,dt,L)); else if(r.chance(0.3)) ops.push(gen_tweak(r)); evolve(dt);
+        if(r.chance(0.12)){ Json pt=Json::object(); pt["which"]=(int)r.below(5); pt["at"]=r.range(1,8); ops[ops.size()-1]["pre_toggle"]=pt; }
+        if(r.chance(0.25)) ops.push(gen_expect(r,false)); }
       if(r.chance(0.12)) gen_stale_tolerance(r,ops,L);
     }else if(prop=="C05"){
       int n=r.range(2,10);
@@ -796,6 +829,7 @@ struct SolverEngine: Engine{
     run->prop=plan["property"].as_str("C04");
     run->c.prop_default=run->prop;
     run->c.log.reserve(8192);
+    run->c.run=run; run->c.pre_hook=&Run::pre_hook_tramp;
     g_ctx=&run->c;
     AllocCfg cfg; const Json& a=plan["alloc"];
     cfg.reuse=(int)a["reuse"].as_int(REUSE_LIFO); cfg.residue=(int)a["residue"].as_int(RESIDUE_RANDOM); cfg.fill=(int)a["fill"].as_int(0);
